@@ -161,3 +161,106 @@ def network_formulas(ctx, rid):
     shape_rule(ctx, "%s.duration.formula" % rid, ND("duration"),
                ("bin", "Sub", ("call", "Node::end_time", [side(1)]), ("call", "Node::start_time", [side(1)])),
                "duration of an activity = end_time - start_time", "useful duration and all duration-based costs are wrong")
+
+
+def truth_rule(ctx, oid, key, text, sources, expect, consequence=""):
+    """small truth tables: `sources` = [(name, predicate(instr) -> 'pos' | 'neg' | None)] identifies boolean-valued calls in the body
+    ('neg' for the negated form, e.g. ne for "equal"); `expect(case dict) -> 'T' | 'F' | None` is the documented answer"""
+    from .. import optabs
+    import itertools
+    o, fd = ctx.require_fn(oid, "T12+abs", key, text)
+    if fd is None:
+        return
+    found = []
+    for name, pred in sources:
+        hit = [(ins, pred(ins)) for ins in fd.body.calls() if pred(ins)]
+        if len(hit) != 1:
+            ctx.undecided(o, "the test `%s` is not found exactly once (%d)" % (name, len(hit)))
+            return
+        found.append((name, hit[0][0], hit[0][1]))
+    bad = []
+    for combo in itertools.product("TF", repeat=len(found)):
+        case = {n: v == "T" for (n, _, _), v in zip(found, combo)}
+        want = expect(case)
+        if want is None:
+            continue
+        src = {}
+        for (n, ins, pol), v in zip(found, combo):
+            src[ins.id] = v if pol == "pos" else {"T": "F", "F": "T"}[v]
+        it = optabs.OptInterp(fd.body, src)
+        it.run()
+        got = {r["ret"] if isinstance(r["ret"], str) else "?" for r in it.records}
+        if got and got != {want} and ({"T": "F", "F": "T"}[want] in got or got == {"?"} and False):
+            bad.append("%s => %s (documented: %s)" % (", ".join("%s: %s" % (k, "yes" if v else "no") for k, v in case.items()),
+                                                      "/".join(sorted(got)), want))
+    if bad:
+        ctx.bad(o, "; ".join(bad[:3]) + ((": " + consequence) if consequence else ""))
+    else:
+        ctx.ok(o, "all cases as documented")
+
+
+def network_predicates(ctx, rid):
+    def named(suffix, pol="pos"):
+        return lambda ins: pol if (ins.callee or "").endswith(suffix) or (ins.decl or "").endswith(suffix) else None
+
+    def eq_or_ne(ins):
+        d = ins.decl or ""
+        if d == "core::cmp::PartialEq::eq":
+            return "pos"
+        if d == "core::cmp::PartialEq::ne":
+            return "neg"
+        return None
+    truth_rule(ctx, "%s.maintenance_considered" % rid, N("maintenance_considered"),
+               "maintenance is considered iff the instance has maintenance slots",
+               [("no maintenance slots", named("::is_empty"))], lambda c: "F" if c["no maintenance slots"] else "T",
+               "the maintenance stages of the pipeline run exactly when they should not")
+    truth_rule(ctx, "%s.compatible_with_vehicle_type" % rid, N("compatible_with_vehicle_type"),
+               "a node is compatible with a type iff it is not a service trip or its route's type equals it",
+               [("service trip", named("Node::is_service")), ("same type", eq_or_ne)],
+               lambda c: "T" if (not c["service trip"] or c["same type"]) else "F",
+               "vehicles are given trips of another type (or refused their own)")
+
+
+def overflow_capacity_formula(ctx, rid):
+    """overflow capacity = (number of service trips) x (LARGEST formation count over the types) + (allotted maintenance tracks)"""
+    key = N("new")
+    o, fd = ctx.require_fn("%s.overflow-capacity.formula" % rid, "T12", key,
+                           "overflow depot capacity = service trips x max formation count over all types + maintenance tracks")
+    if fd is None:
+        return
+    DN = "model::network::depot::Depot::new"
+    verdicts = []
+    for f in hosts(ctx, key, depth=1):
+        for c in f.body.calls():
+            if c.callee != DN or len(c.args) < 4:
+                continue
+            e = shape.normalise(shape.expr(f, c.args[3]))
+            calls = shape.calls_of(e)
+            maxf = any(x.endswith("Iterator::max") or x.endswith("Ord::max") for x in calls)
+            minf = any(x.endswith("Iterator::min") or x.endswith("Ord::min") for x in calls)
+            top_add = e[0] == "bin" and e[1] == "Add"
+            has_mul = "op:Mul" in calls
+            if e[0] == "bin" and e[1] == "Sub" and has_mul:
+                verdicts.append(("bad", c, "the maintenance tracks are subtracted: %s" % shape.show(e)))
+            elif minf and not maxf and has_mul:
+                verdicts.append(("bad", c, "the SMALLEST formation count over the types is used: %s" % shape.show(e)))
+            elif top_add and has_mul and maxf:
+                verdicts.append(("ok", c, shape.show(e)))
+            else:
+                verdicts.append(("undecided", c, shape.show(e)))
+    if any(v[0] == "bad" for v in verdicts):
+        v = [v for v in verdicts if v[0] == "bad"][0]
+        ctx.bad(o, "%s - the overflow depot cannot host the vehicles the flow bounds can force, the circulation is infeasible and unwrap panics" % v[2], loc=v[1].line())
+    elif any(v[0] == "ok" for v in verdicts):
+        ctx.ok(o, [v for v in verdicts if v[0] == "ok"][0][2])
+    else:
+        ctx.undecided(o, "capacity expression not recognised: %s" % (verdicts[0][2] if verdicts else "no Depot::new call"))
+    # the overflow depot is among the depots the network is built from
+    o2 = ctx.ob("%s.overflow-depot-registered" % rid, "T1", key, "the overflow depot is pushed into the depot list the nodes are created from")
+    ok = False
+    for f in hosts(ctx, key, depth=1):
+        for c in f.body.calls():
+            if (c.callee or "").endswith("Vec::push") and len(c.args) == 2 and slice_has_call_def(f.slice_operand_pure(c, c.args[1]), DN):
+                ok = True
+    ctx.decide(o2, ok, "depots.push(overflow depot)", "the overflow depot is built but never added to the depots: no start/end nodes exist for it and "
+               "every fallback to the overflow depot panics")
